@@ -13,6 +13,8 @@ import (
 	"golang.org/x/tools/go/ssa"
 )
 
+var maxLenTerm = Term{"1125899906842624", SInt} // 2^50
+
 type loopInfo struct {
 	header   *ssa.BasicBlock
 	ordinal  int
@@ -397,12 +399,13 @@ func (fg *FnGen) shapeFacts(T types.Type, L []Term) []Term {
 	for i := 0; i+3 < len(ls); i++ {
 		if ls[i].Role == "arr" && ls[i+2].Role == "len" && ls[i+3].Role == "cap" {
 			fs = append(fs, Le(L[i+2], L[i+3]))
+			fs = append(fs, Le(L[i+3], maxLenTerm)) // machine assumption: no object has more than 2^50 elements
 			// nil slice has no elements
 			fs = append(fs, Implies(Eq(L[i], IntLit(0)), Eq(L[i+3], IntLit(0))))
 		}
 	}
 	if isStringType(T) && len(L) == 1 {
-		fs = append(fs, Ge(fg.strLen(L[0]), IntLit(0)))
+		fs = append(fs, Ge(fg.strLen(L[0]), IntLit(0)), Le(fg.strLen(L[0]), maxLenTerm))
 	}
 	return fs
 }
@@ -955,7 +958,10 @@ func (fg *FnGen) loopHead(b *ssa.BasicBlock, li *loopInfo, fpreds []*ssa.BasicBl
 	fg.cur = fg.join(b, fpreds)
 	pre := fg.cur.clone()
 	if fg.pass == 1 {
+		cb := fg.curBlock
+		fg.curBlock = nil // the pass-1 havoc itself is not a write of the loop body
 		fg.havocAll("loop head (pass 1)")
+		fg.curBlock = cb
 	} else {
 		mods := fg.loopMods[b.Index]
 		if mods["$all"] {
